@@ -134,10 +134,11 @@ func newEnvWith(me string, n int, storeType string, lister []string, gc gatewayc
 		LeaderElectionConfiguration: componentbaseconfig.LeaderElectionConfiguration{
 			ResourceLock: "leases", ResourceNamespace: "kube-gateway", ResourceName: "verif"},
 	}
-	rl, err := limiter.VerifC13NewRateLimiter(gc, kubefake.NewSimpleClientset(), opts, &stubController{indexer})
+	rl, unused, err := limiter.VerifC13NewRateLimiter(gc, kubefake.NewSimpleClientset(), opts, &stubController{indexer})
 	if err != nil {
 		return nil, err
 	}
+	shutdownController(unused)
 	return &env{rl: rl, le: limiter.VerifC13Elector(rl), indexer: indexer, n: n}, nil
 }
 
